@@ -111,6 +111,9 @@ Mutate(c, m) ==
     [] m = "sig-wrongkey"     -> [c EXCEPT !.signer = OtherGen(c.gen), !.mut = m]
     [] m = "sig-wrongchain"   -> [c EXCEPT !.sig = "wrongchain", !.mut = m]
     [] m = "sig-stale"        -> [c EXCEPT !.sig = "stale", !.mut = m]
+    [] m = "sig-stale-mhg"    -> [c EXCEPT !.sig = "stale-mhg", !.mut = m]     \* fields only the signature protects, edited after signing
+    [] m = "sig-stale-ts"     -> [c EXCEPT !.sig = "stale-ts", !.mut = m]
+    [] m = "sig-stale-stateroot" -> [c EXCEPT !.sig = "stale-stateroot", !.mut = m]
     [] m = "mhp+1"            -> [c EXCEPT !.mhp = @ + 1, !.mut = m]
     [] m = "mhg-zero"         -> [c EXCEPT !.mhg = 0, !.mut = m]
     [] m = "mhg-noclaim"      -> [c EXCEPT !.mhg = c.h, !.mut = m]
